@@ -142,6 +142,9 @@ class StrContract(Contract):
         tclass = 'empty' if not t else ('ascii' if t.isascii() else 'non-ascii')
         ctx.sig('%s:%s' % (call.name, tclass))
         det = {'text': t, 'expected': repr(ref)[:300]}
+        if isinstance(exc, StepBudgetExceeded) and (len(t) > 64 or any(isinstance(a, str) and len(a) > 64 for a in pargs)):
+            ctx.grey('step-budget-on-input-longer-than-64')     # the bounded-progress claim is for inputs <= 64 (C09)
+            return
         if exc is not None:
             mech = 'no-termination:' + call.name if isinstance(exc, StepBudgetExceeded) else 'raises-where-str-returns:' + call.name
             ctx.violation('raised-where-str-returns', dict(det, error=repr(exc)[:200]), call, mech=mech)
